@@ -518,3 +518,73 @@ func vxH17Wstat(dotu bool, faults int) {
 	}
 	vxReach("rwstat")
 }
+
+// vxH17Rename: wstat used only to rename, onto free and occupied names. The outcome must be the one rename(2)
+// gives (reference table below, written from POSIX): a file replaces a file, a directory replaces an empty
+// directory, file onto directory is EISDIR, directory onto file ENOTDIR, directory onto a non-empty directory
+// ENOTEMPTY/EEXIST; a refused rename changes nothing.
+func vxH17Rename(dotu bool) {
+	k := vxC17Kit(dotu, 0)
+	fs := k.fs
+	root := k.rootDir()
+	d := fs.addDir(root, "d", 0755)
+	objIsDir := vxChoose("object", 2) == 1
+	var obj *vxInode
+	qt := uint8(0)
+	if objIsDir {
+		obj = fs.addDir(d, "o", 0755)
+		qt = QTDIR
+	} else {
+		obj = fs.addFile(d, "o", 0644, []byte{1})
+	}
+	destKind := vxChoose("dest", 4) // 0 free, 1 file, 2 empty directory, 3 non-empty directory
+	var old *vxInode
+	switch destKind {
+	case 1:
+		old = fs.addFile(d, "n", 0644, []byte{2, 2})
+	case 2:
+		old = fs.addDir(d, "n", 0755)
+	case 3:
+		old = fs.addDir(d, "n", 0755)
+		fs.addFile(old, "x", 0644, nil)
+	}
+	p, dest := vxRoot+"/d/o", vxRoot+"/d/n"
+	_, uf := k.addFid(1, p, qt)
+	var dir Dir
+	dir.Mode, dir.Length, dir.Mtime, dir.Atime = 0xFFFFFFFF, 0xFFFFFFFFFFFFFFFF, 0xFFFFFFFF, 0xFFFFFFFF
+	dir.Uidnum, dir.Gidnum = NOUID, NOUID
+	dir.Name = "n"
+	vxObserve("@object-is-dir", objIsDir)
+	vxObserve("@dest", destKind)
+	before := fs.snapshot()
+	rc := k.run(&Fcall{Type: Twstat, Fid: 1, Dir: dir}, 512)
+	if rc == nil {
+		return
+	}
+	// POSIX rename(2)
+	ok := false
+	switch {
+	case destKind == 0:
+		ok = true
+	case destKind == 1:
+		ok = !objIsDir // file over file; directory over file: ENOTDIR
+	case destKind == 2:
+		ok = objIsDir // directory over empty directory; file over directory: EISDIR
+	}
+	if ok {
+		vxAssert(rc.Type == Rwstat, "rename-succeeds-where-rename(2)-does")
+		if rc.Type == Rwstat {
+			r := fs.resolve(dest, false)
+			vxAssert(r.errno == 0 && r.in == obj, "renamed-object-is-at-destination")
+			vxAssert(fs.resolve(p, false).errno != 0, "old-name-is-gone")
+			vxAssert(vxSamePath(uf.path, dest), "fid-designates-renamed-object")
+			vxReach("renamed")
+		}
+	} else {
+		vxAssert(rc.Type == Rerror, "rename-refused-where-rename(2)-refuses")
+		vxAssert(vxSameTree(before, fs.snapshot()), "refused-rename-changes-nothing")
+		vxAssert(uf.path == p, "refused-rename-leaves-fid")
+		vxReach("refused")
+	}
+	_ = old
+}
